@@ -4,28 +4,48 @@ import numpy as np
 import core
 
 
+_SLOTS = {}  # (module name, attr) -> {"orig": fn, "extract": fn, "seen": list}
+
+
+def _call_slot(key, *a, **k):
+    slot = _SLOTS[key]
+    out = slot["orig"](*a, **k)
+    slot["seen"].append(slot["extract"](out))
+    return out
+
+
+def _wrapped_gmm_m_step(*a, **k):
+    return _call_slot(("bob.learn.em.gmm", "m_step"), *a, **k)
+
+
+def _wrapped_kmeans_m_step(*a, **k):
+    return _call_slot(("bob.learn.em.kmeans", "m_step"), *a, **k)
+
+
+_WRAPPERS = {("bob.learn.em.gmm", "m_step"): _wrapped_gmm_m_step, ("bob.learn.em.kmeans", "m_step"): _wrapped_kmeans_m_step}
+
+
 class Recorder:
-    """Wrap `module.name` (looked up at call time by the code under test) and record `extract(result)`."""
+    """Wrap `module.name` (looked up at call time by the code under test) and record `extract(result)`.
+    The wrapper is a top-level function of this module, so cloudpickle ships it by reference and a task run on a
+    pickled copy (isolating scheduler) still records into this process's slot."""
 
     def __init__(self, module, name, extract):
         self.module, self.name, self.extract = module, name, extract
+        self.key = (module.__name__, name)
         self.seen = []
 
     def __enter__(self):
         self.orig = getattr(self.module, self.name)
-        rec = self
-
-        def wrapped(*a, **k):
-            out = rec.orig(*a, **k)
-            rec.seen.append(rec.extract(out))
-            return out
-
-        wrapped.__name__ = getattr(self.orig, "__name__", self.name)
-        setattr(self.module, self.name, wrapped)
+        _SLOTS[self.key] = {"orig": self.orig, "extract": self.extract, "seen": self.seen}
+        w = _WRAPPERS[self.key]
+        w.__name__ = getattr(self.orig, "__name__", self.name)
+        setattr(self.module, self.name, w)
         return self
 
     def __exit__(self, *a):
         setattr(self.module, self.name, self.orig)
+        _SLOTS.pop(self.key, None)
 
 
 def conv_values(L):
